@@ -101,7 +101,7 @@ def _dict_cases(I, tree, ref):
 
 def rule_shape(rep: Report, rid="C17.shape", rid_none="C17.none") -> None:
     tds = typeddicts()
-    rep.floor("TypedDict declarations", len(tds), 20)
+    rep.floor("TypedDict declarations", len(tds), 10)
     b = br.bnf()
     I = b.I
     rep.used_file(br.BFILE)
